@@ -426,6 +426,7 @@ def scenarios(tier, seed, repo_root, outdir):
     p = subprocess.run(['/venv/bin/python', os.path.join(here, 'scenario.py'), str(seed), str(exh), str(n), str(ln), out], capture_output=True, text=True, env=env, cwd=repo_root, timeout=3000)
     if not os.path.exists(out): raise RuntimeError('scenario runner failed: ' + (p.stderr or p.stdout)[-2000:])
     r = json.load(open(out))
-    return dict(evaluations=r['histories'], failure=r['failure'],
-                label='all histories <= %d ops (after START) + %d random histories <= %d ops over START/COMMIT/ROLLBACK/savepoints(2 names)/updates/SYNC (bounded)' % (exh, n, ln),
+    if not r['failure'] and r.get('sql_scripts', 0) < 500: raise RuntimeError('SQL-script explorer is vacuous: %r' % r.get('sql_scripts'))
+    return dict(evaluations=r['histories'] + r.get('sql_scripts', 0), failure=r['failure'],
+                label='every SQL script <= 3 transaction statements x 3 starting positions through the real compile_sql_as_unit_group; all histories <= %d ops (after START) + %d random histories <= %d ops over START/COMMIT/ROLLBACK/savepoints(2 names)/updates/SYNC (bounded)' % (exh, n, ln),
                 clause='acceptance, compiled-against state and savepoint list agree with the PostgreSQL-style reference model after every operation')
